@@ -111,18 +111,17 @@ end FTL
 
 /-! ## `mapSet` and the slice reuse logic -/
 
-theorem mapSet_FTL {k v' z : Val} {n n1 : Nat} (hk : addrs k = []) (hz : addrs z = []) :
-    ∀ ds : Val, FTL (addrs (mapGet k z ds)) (addrs v') n n1 →
+theorem mapSet_FTL {k v' : Val} {n n1 : Nat} (hk : addrs k = []) :
+    ∀ ds : Val, FTL [] (addrs v') n n1 →
       FTL (addrs ds) (addrs (mapSet k v' ds)) n n1 := by
   intro ds
   induction ds using valInduction with
   | step ds ih =>
   intro h
-  have hdefault : ∀ ds : Val, mapLookup k ds = none → mapSet k v' ds = .scons (.pair k v') .snil →
-      FTL (addrs (mapGet k z ds)) (addrs v') n n1 → FTL (addrs ds) (addrs (mapSet k v' ds)) n n1 := by
-    intro ds hl hs h
+  have hdefault : ∀ ds : Val, mapSet k v' ds = .scons (.pair k v') .snil →
+      FTL (addrs ds) (addrs (mapSet k v' ds)) n n1 := by
+    intro ds hs
     rw [hs]
-    simp only [mapGet, hl, hz] at h
     simp only [addrs, hk, List.nil_append, List.append_nil]
     exact FTL.shift (Nat.le_refl _) (List.nil_sublist _) h
   cases ds with
@@ -131,17 +130,15 @@ theorem mapSet_FTL {k v' z : Val} {n n1 : Nat} (hk : addrs k = []) (hz : addrs z
     | pair k' w =>
       cases hg : goEq k k' with
       | true =>
-        simp only [mapGet, mapLookup, hg, if_true] at h
         simp only [mapSet, hg, if_true, addrs]
-        exact ((FTL.refl _ n).append h).append (FTL.refl _ n1)
+        exact ((FTL.refl _ n).append (FTL.shift (Nat.le_refl _) (List.nil_sublist _) h)).append
+          (FTL.refl _ n1)
       | false =>
-        have h' : FTL (addrs (mapGet k z tl)) (addrs v') n n1 := by
-          simpa only [mapGet, mapLookup, hg, Bool.false_eq_true, if_false] using h
-        have := ih tl (by simp <;> omega) h'
+        have := ih tl (by simp <;> omega) h
         simp only [mapSet, hg, Bool.false_eq_true, if_false, addrs]
         exact (FTL.refl _ n).append this
-    | _ => exact hdefault _ rfl rfl h
-  | _ => exact hdefault _ rfl rfl h
+    | _ => exact hdefault _ rfl
+  | _ => exact hdefault _ rfl
 
 theorem sliceBase_FTL {z : Val} (hz : addrs z = []) (L : Nat) (prior : Val) (n : Nat) :
     FTL (addrs prior) (addrs (sliceBase z L prior n).1) n (sliceBase z L prior n).2 := by
@@ -229,7 +226,8 @@ theorem freshOK_step_entries (hf : env.flagsOk = true) (x : Val)
     obtain ⟨⟨v1, n1⟩, h1, h⟩ := bind_ok_inv h
     have A := (ih v (by simp <;> omega)).field V _ n hv v1 n1 h1
     have B := (ih r (by simp <;> omega)).entries K V _ n1 hK hr d' n' h
-    exact (mapSet_FTL (addrs_of_canCopy hf hK hk) (addrs_zeroVal _ _ _) ds A).trans B
+    rw [addrs_zeroVal] at A
+    exact (mapSet_FTL (addrs_of_canCopy hf hK hk) ds A).trans B
 
 theorem top_ptr_fallback {env : Env} {R : Ty} {dst d' : Val} {n n' : St}
     (h : (match env.under R with
